@@ -220,7 +220,7 @@ Definition dispatch (E : env) (i : nat) (m : msg) : outcome * option call :=
 Definition answer (E : env) (i : nat) (line : bytes) : outcome * option call :=
   match next_message E line with
   | None =>
-      let f := splitsp error_split_max line in     (* latin-1: code point = byte *)
+      let f := splitsp error_split_max (bstrip line) in     (* raw_msg.strip(), latin-1: code point = byte *)
       (OReply [] (err_reply E i (nth 0%nat f []) (nth_error f 1%nat) decode_error_name), None)
   | Some (a, s, d) =>
       if str_eqb a HELPREQUEST then (OReply help_frames_msgs (HELPREPLY, None, None), None)
